@@ -114,6 +114,13 @@ func (g *Gen) rawStr() string {
 		}
 		g.Stats["str:regular"]++
 	}
+	if g.r.chance(4) {
+		// a long value (beyond any "display" limit someone might introduce): 70..200 bytes
+		for len(s) < 70+g.r.intn(130) {
+			s = s + ", " + g.r.pick(regularPool)
+		}
+		g.Stats["str:long"]++
+	}
 	return s
 }
 
